@@ -244,7 +244,9 @@ func (s *Session) Read(b []byte) (n int, err error) {
 	// Stop reading when deadline is reached.
 	var timeC <-chan time.Time
 	readDeadline := s.readDeadline.Load()
-	if respDeadline := s.respDeadline.Load(); respDeadline != 0 && (readDeadline == 0 || respDeadline < readDeadline) {
+	// A response timeout that has already expired belongs to a Write whose
+	// response was read, or given up on, before this Read started.
+	if respDeadline := s.respDeadline.Load(); respDeadline > time.Now().UnixMicro() && (readDeadline == 0 || respDeadline < readDeadline) {
 		readDeadline = respDeadline
 	}
 	if readDeadline != 0 {
